@@ -288,7 +288,7 @@ class PCase:
     """
 
     def __init__(self, case_id, make, goals, *, extra_deg=2, budget_s=240.0, max_rows=120000,
-                 validate=True, interp_kw=None, assumptions=(), per_entry=False, deepen=1):
+                 validate=True, interp_kw=None, assumptions=(), per_entry=False, deepen=1, sq_mode="all"):
         self.id = case_id
         self.make = make
         self.goals = goals
@@ -300,6 +300,7 @@ class PCase:
         self.assumptions = list(assumptions)
         self.per_entry = per_entry
         self.deepen = deepen
+        self.sq_mode = sq_mode
 
     def run(self, seed=0, log=print, replay_dir=None):
         t0 = time.time()
@@ -431,7 +432,7 @@ class PCase:
                     if deadline:
                         budget = max(5.0, min(budget, deadline - time.time() - 20.0))
                     pr = xl.prove_with_cancellation(dom.hyps, goals, alg_atoms=dom.alg_atoms, sq_atoms=dom.sq_atoms,
-                                  inv_atoms=dom.inv_atoms, defined=dom.defined, extra_deg=extra,
+                                  inv_atoms=dom.inv_atoms, defined=dom.defined, extra_deg=extra, sq_mode=self.sq_mode,
                                   budget_s=budget, max_rows=self.max_rows,
                                   log=(log if os.environ.get("VERIF_VERBOSE") else None))
                     if pr.status in ("proved", "trivial"):
